@@ -289,7 +289,7 @@ Two(v) == <<48 + ((v \div 10) % 10), 48 + (v % 10)>>
 GTEnc(t) ==
   LET a == IF t[7] < 0 THEN -t[7] ELSE t[7] IN
   Two(t[1] \div 100) \o Two(t[1] % 100) \o Two(t[2]) \o Two(t[3]) \o Two(t[4]) \o Two(t[5]) \o Two(t[6])
-  \o (IF t[7] = 0 THEN <<90>>
+  \o (IF a \div 60 = 0 THEN <<90>>        \* zone of less than a minute: Z (appendTimeCommon: offset/60 == 0)
       ELSE <<IF t[7] < 0 THEN 45 ELSE 43>> \o Two(a \div 3600) \o Two((a % 3600) \div 60))
 
 ----------------------------------------------------------------------------
